@@ -713,7 +713,7 @@ def op_validate(res, shape, ks, ss, wi):
             changed["k%d" % j] = [float(m), float(k)]
     if changed:
         res.outcomes["validate-MUTATED-caller-constants"] += 1
-        res.violation("C10|_create_odesys.validate|side-effect|changes-the-callers-rate-constant", "%s k=%s state %d: after validate() the given constants read %r (SI: now, given)"
+        res.violation("C10|_create_odesys.validate|%s|changes-the-callers-rate-constant" % case["shape"], "%s k=%s state %d: after validate() the given constants read %r (SI: now, given)"
                       % (case["shape"], case["k"], ss, changed), case, changed, "unchanged")
     else:
         res.outcomes["validate-leaves-constants-unchanged"] += 1
@@ -771,7 +771,7 @@ def op_solve(res, shape, rc, ks):
         okp = e == _k_exps(consts[nm][0]) and A.close(m, float(fexp), RTOL)
     if not ok:
         res.outcomes["solve-WRONG"] += 1
-        res.violation("C10|_create_odesys.unit_aware_solve|end-point|differs-from-reference", "%s registry %r k=%s: t=%r s %r c=%r %r; reference t=%r c=%r"
+        res.violation("C10|_create_odesys.unit_aware_solve|%s|end-point-differs-from-reference" % case["shape"], "%s registry %r k=%s: t=%r s %r c=%r %r; reference t=%r c=%r"
                       % (case["shape"], case["registry"], case["k"], tm.tolist(), te, obs, ye, float(tend), ref), case, [tm.tolist(), obs], [float(tend), ref])
     elif not okp:
         res.outcomes["solve-param-units-WRONG"] += 1
